@@ -122,6 +122,8 @@ impl Curve {
         // We need at least three samples to extrapolate, so let's do nothing if we have fewer.
         if self.wcet_of_n_jobs.len() >= 3 {
             while self.wcet_of_n_jobs.len() < n - 1 {
+                #[cfg(feature = "verif")]
+                crate::verif_hooks::tick("wcet::Curve::extrapolate");
                 self.wcet_of_n_jobs.push(self.extrapolate_next())
             }
         }
